@@ -70,7 +70,17 @@ def cells(tier, seed):
     for ei in range(len(EXPRS)):
         for vi in range(len(EXPRS[ei][1])):
             out.append({"k": "exprs", "e": ei, "v": vi})
+    for li in range(len(LITERALS)):
+        for oi in range(len(TIGHT_OPS)):
+            out.append({"k": "tight", "lit": li, "op": oi})
     return out
+
+
+# a literal (or identifier / bracket) directly followed by an operator, with no layout in between,
+# must mean the same as the spaced rendering
+LITERALS = ["3", "2_5", "0xC", "0b11", "1.5", "0", "n", "(n)", "[n][0]", "'s'", "\"s\"", "TRUE", "12"]
+TIGHT_OPS = ["+", "-", "*", "/", "%", "==", "!=", "<>", "<", "<=", ">", ">=", "!>string()", " and ", " or ",
+             " in [3]", "->x", ",", ";", ")", "]"]
 
 
 def tokseq(lexer):
@@ -204,6 +214,43 @@ def run(ctx, cell):
             ctx.check(toks[0].value == s, "C14:strings:%s:wrong-value" % sp,
                       lambda: {"text": str(text), "got": str(toks[0].value), "want": str(s)})
         return ["n", len(toks)]
+    if k == "tight":
+        ctx.reach("exprs")
+        lit, op = LITERALS[cell["lit"]], TIGHT_OPS[cell["op"]]
+        n = ctx.int("n", -50, 50)
+        env = {"n": vint(n)}
+        if op in (",", ")", "]"):
+            wrap = {",": ("[", ", n]"), ")": ("(", ")"), "]": ("[", "]")}[op]
+            loose = wrap[0] + lit + " " + wrap[1].lstrip()
+            tight = wrap[0] + lit + wrap[1].replace(", ", ",")
+            if op == ",":
+                tight = "[" + lit + ",n]"
+        elif op == ";":
+            loose, tight = lit + " ; n", lit + ";n"
+        elif op.startswith("!>") or op.startswith("->") or op.startswith(" "):
+            loose, tight = lit + " " + op.strip(), lit + (op if op.startswith(" ") else op)
+            if op.startswith(" "):
+                tight = lit + op            # keyword operators keep their blanks
+        else:
+            loose, tight = "%s %s n" % (lit, op), "%s%sn" % (lit, op)
+            tight2 = "%s%s n" % (lit, op)
+        o1 = run_ckl(loose, dict(env))
+        variants = [tight] + ([tight2] if op in TIGHT_OPS[:12] else [])
+        key = "C14:tight:%s:%s" % (lit, op.strip())
+        for tv in variants:
+            o2 = run_ckl(tv, dict(env))
+            detail = lambda: {"spaced": loose, "tight": tv, "n": int(n), "spaced_result": ctx.plain(o1),
+                              "tight_result": ctx.plain(o2)}
+            if o1.kind == "host" or o2.kind == "host":
+                continue
+            if not ctx.check(o1.kind == o2.kind, key + ":outcome-kind-differs", detail):
+                continue
+            if o1.kind == "ok":
+                ctx.check(o1.value == o2.value, key + ":value-differs", detail)
+                ctx.check(str(o1.value.type()) == str(o2.value.type()), key + ":kind-differs", detail)
+            elif o1.kind == "rt":
+                ctx.check(o1.exc.value == o2.exc.value, key + ":error-value-differs", detail)
+        return [o1]
     if k == "exprs":
         ctx.reach("exprs")
         base, variants = EXPRS[cell["e"]]
